@@ -4,13 +4,22 @@ import os, sys
 sys.path.insert(0, os.path.join(os.path.dirname(os.path.abspath(__file__)), "..", "tools"))
 from nqlib import run_standard
 
-RULE = ("every byte string over {CR,LF,'.','a'} up to length %s (exhaustive; read chunkings full/1/2/3) plus seeded random "
-        "messages up to 64 KiB, run through the real qmail-remote.c blast() (ASan+UBSan build of the working tree) and the Lean "
-        "model rblast; the oracle (terminator once, no bare LF, stuffed lines, rfcDecode(out)=canon(in)) is evaluated on the "
-        "implementation's output; non-trivial = distinct input containing a CR or a dot at a line start")
+RULE = ("every byte string over {CR,LF,'.','a'} up to length %s (exhaustive; read chunkings full/1/2/3, short writes, and for the shorter ones "
+        "a failing read() at every position and a failing write()) plus seeded random messages up to 64 KiB (7 of 8 ending in a line end), "
+        "run through the real qmail-remote.c blast() over the real substdio and safewrite (ASan+UBSan build of the working tree) and the Lean "
+        "models rblast (pure) and oblast (the loop over Nq.Substdio, the harness's read/write plans as scripts: outcome, bytes taken by the socket, "
+        "bytes left in smtptobuf, number of write() calls); chunking (theorems C06_chunking*): messages of 1-5 KiB each under 16 fixed read x write "
+        "plans (1/2/1023/1024/1025/full/mixed), random short reads and writes, a failing read, a failing write, and every string up to length %s "
+        "placed at every offset across the 1024-byte refill of inbuf; oracles on the implementation's output: completed transmissions - terminator once, "
+        "no bare LF, stuffed lines, dblast(out)=rfcDecode(out)=canon(in), nothing left unflushed; refused/failed/dropped ones (C06_prefix_no_terminator) - "
+        "flushed+buffered bytes are a prefix of the encoder output, no bare LF, no lone-dot line; every non-failing split gives the same wire; "
+        "non-trivial = distinct input containing a CR or a dot at a line start")
 
-run_standard("C06", "Nq.Props.C06", "drv_c06", "harness/c06_blast.c", "qmail-remote", [],
-             "9 4000", "12 60000", {"quick": RULE % 9, "thorough": RULE % 12},
-             "rblast (Nq/SmtpOut.lean) vs qmail-remote.c blast()", alphabet=b"\r\n.a",
-             assumptions=["substdio buffering is transparent to the byte stream (several read chunkings are run)",
+run_standard("C06", "Nq.Props.C06", "drv_c06", "harness/c06_blast.c", "qmail-remote", ["timeoutwrite.o"],
+             "9 4000", "12 60000", {"quick": RULE % (9, 5), "thorough": RULE % (12, 8)},
+             "rblast (Nq/SmtpOut.lean) and oblast over Nq.Substdio (Nq/SmtpIO.lean) vs qmail-remote.c blast() over substdi.c/substdo.c/safewrite",
+             alphabet=b"\r\n.a", stdin_prefixes=("0", "1", "2", "3", "1023/1", "1024/1023"),
+             assumptions=["the value-level substdio model (Nq/Substdio.lean: buffers are byte lists, not the arrays) is tied to substdi.c/substdo.c by running "
+                          "the real substdio under the read/write plans and comparing wire, buffered bytes and write() counts (and by C20's harness); "
+                          "read() returns 0 only at the end of the file; write() returns >= 1 or fails (safewrite treats 0 as failure)",
                           "the SMTP peer splits lines at CR LF (RFC 5321)"])
